@@ -209,9 +209,11 @@ fn history_from_json(j: &J) -> Option<History> {
     })
 }
 
-pub fn check_history(h: &History, rec: &mut Recorder) -> Result<(), String> {
-    // prepare inputs
-    let mut prepared: Vec<(Fmt, Mode, Vec<u8>, Vec<Val>)> = vec![];
+type Prepared = Vec<(Fmt, Mode, Vec<u8>, Vec<Val>)>;
+
+/// Input texts of a history (None: a generator reject, already counted).
+fn prepare_history(h: &History, rec: &mut Recorder) -> Option<Prepared> {
+    let mut prepared: Prepared = vec![];
     for c in &h.calls {
         let mut spec = c.input.clone();
         // a source format that cannot spell one of the documents is replaced by
@@ -228,7 +230,7 @@ pub fn check_history(h: &History, rec: &mut Recorder) -> Result<(), String> {
         let docs: Vec<DocSpec> = spec.docs.iter().filter(|d| writable(&d.v, spec.fmt)).cloned().collect();
         if docs.is_empty() {
             rec.reject();
-            return Ok(());
+            return None;
         }
         spec.docs = docs;
         // build_input would table-root TOML docs itself; values are final here
@@ -239,11 +241,101 @@ pub fn check_history(h: &History, rec: &mut Recorder) -> Result<(), String> {
             Ok(d) if d == models => {}
             _ => {
                 rec.reject();
-                return Ok(());
+                return None;
             }
         }
         prepared.push((spec.fmt, spec.mode.clone(), text, models));
     }
+    Some(prepared)
+}
+
+/// The same histories through the real binaries: every call is one input file
+/// (named by its format's extension) of one `xt -t toml` invocation. Standard
+/// output must be nothing or exactly one valid TOML document - the one the
+/// library writes for the same inputs - and the exit status must say whether
+/// every input was translated.
+pub fn check_cli_history(h: &History, rec: &mut Recorder) -> Result<(), String> {
+    use crate::cli::*;
+    let prepared = match prepare_history(h, rec) {
+        Some(p) => p,
+        None => return Ok(()),
+    };
+    // reference: one library translator over the same inputs as slices (mapped files)
+    let log = std::rc::Rc::new(std::cell::RefCell::new(Vec::<u8>::new()));
+    struct LogWriter(std::rc::Rc<std::cell::RefCell<Vec<u8>>>);
+    impl std::io::Write for LogWriter {
+        fn write(&mut self, buf: &[u8]) -> std::io::Result<usize> {
+            self.0.borrow_mut().extend_from_slice(buf);
+            Ok(buf.len())
+        }
+        fn flush(&mut self) -> std::io::Result<()> {
+            Ok(())
+        }
+    }
+    let mut all_ok = true;
+    {
+        let mut t = xt::Translator::new(LogWriter(log.clone()), Fmt::Toml.xt());
+        for (fmt, _, text, _) in &prepared {
+            // an empty file is read through the reader route by the binary
+            let mode = if text.is_empty() { Mode::Reader(crate::sio::Sched::Full) } else { Mode::Slice };
+            match translator_call(&mut t, text, &mode, Some(*fmt)) {
+                Verdict::Ok => {}
+                Verdict::Err(_) => {
+                    all_ok = false;
+                    break;
+                }
+                Verdict::Panic(p) => return Err(format!("library panic: {}", p)),
+            }
+        }
+    }
+    let expected = log.borrow().clone();
+    let n_docs: usize = prepared.iter().map(|p| p.3.len()).sum();
+    let sc = Scratch::new("c08");
+    let mut args: Vec<std::ffi::OsString> = vec!["-t".into(), "toml".into()];
+    for (i, (fmt, _, text, _)) in prepared.iter().enumerate() {
+        let ext = match fmt {
+            Fmt::Json => "json",
+            Fmt::Yaml => "yaml",
+            Fmt::Toml => "toml",
+            Fmt::Msgpack => "msgpack",
+        };
+        args.push(sc.file(&format!("in{}.{}", i, ext), text).into());
+    }
+    for bin in [Bin::Release, Bin::Debug] {
+        let r = run_xt(bin, &args, &sc.dir, StdinSpec::Null, StdoutSpec::Pipe, vec![]);
+        if r.timed_out {
+            return Err(format!("[{}] no result within the time limit", bin.name()));
+        }
+        let at = format!("xt -t toml over {} input file(s) holding {} document(s) [{}]", prepared.len(), n_docs, bin.name());
+        if !r.stdout.is_empty() {
+            let text = std::str::from_utf8(&r.stdout).map_err(|_| format!("{}: standard output is not UTF-8", at))?;
+            crate::rd_toml::read_doc(text).map_err(|e| format!("{}: standard output is not one valid TOML document: {} ({:?})", at, e, brief_bytes(&r.stdout)))?;
+        }
+        // after a refusal the binary may or may not have flushed the accepted
+        // document; anything else is neither "nothing" nor "the one document"
+        let acceptable = r.stdout == expected || (!all_ok && r.stdout.is_empty());
+        if !acceptable {
+            return Err(format!("{}: standard output {:?} is neither empty nor the one document a TOML translator writes for these inputs: {:?}", at, brief_bytes(&r.stdout), brief_bytes(&expected)));
+        }
+        let want = if all_ok { 0 } else { 1 };
+        if r.code != Some(want) {
+            return Err(format!("{}: expected exit {}, got {}", at, want, r.brief()));
+        }
+    }
+    rec.count(if n_docs >= 2 { Some(hash_of(&history_json(h).to_string())) } else { None });
+    rec.class(&format!("cli_inputs:{}", prepared.len()));
+    rec.class(if all_ok { "cli:all_translated" } else { "cli:refused" });
+    if prepared.len() >= 2 && !expected.is_empty() {
+        rec.class("cli:later_input_after_accepted_document");
+    }
+    Ok(())
+}
+
+pub fn check_history(h: &History, rec: &mut Recorder) -> Result<(), String> {
+    let prepared = match prepare_history(h, rec) {
+        Some(p) => p,
+        None => return Ok(()),
+    };
     // run against the model
     let mut attempted = false;
     let mut accepted: Option<Vec<u8>> = None;
@@ -384,14 +476,26 @@ impl Check for C08 {
         ]
     }
     fn units(&self, tier: Tier) -> Vec<Unit> {
-        vec![Unit::gen("history", 16, tier.pick(12_000, 100_000)), Unit::gen("paths", 8, tier.pick(150, 1500))]
+        vec![Unit::gen("history", 16, tier.pick(12_000, 100_000)), Unit::gen("paths", 8, tier.pick(150, 1500)), Unit::gen("cli", 8, tier.pick(150, 2500))]
     }
     fn required_classes(&self, _tier: Tier) -> Vec<&'static str> {
-        vec!["accepted_document", "refusable_document", "second_document_or_input", "unspecified_document", "refusal_at_depth", "calls:2", "calls:3", "paths:null", "paths:oversized_int", "paths:nonroot_key_null"]
+        vec!["accepted_document", "refusable_document", "second_document_or_input", "unspecified_document", "refusal_at_depth", "calls:2", "calls:3", "paths:null", "paths:oversized_int", "paths:nonroot_key_null", "cli:all_translated", "cli:refused", "cli:later_input_after_accepted_document"]
     }
     fn run_unit(&self, unit: &Unit, _shard: u32, seed: u64, _tier: Tier, rec: &mut Recorder) {
         match unit.name {
             "history" => run_prop(rec, seed, unit.cases, history_strategy(), history_json, check_history),
+            "cli" => run_prop(
+                rec,
+                seed,
+                unit.cases,
+                history_strategy(),
+                |h| {
+                    let mut j = history_json(h);
+                    j["unit"] = json!("cli");
+                    j
+                },
+                check_cli_history,
+            ),
             "paths" => {
                 let strat = (val_strategy(Shape { depth: 4, size: 14, ..Shape::COMMON }).prop_map(table_rooted), style_strategy());
                 let cell = std::cell::RefCell::new(None::<J>);
@@ -435,6 +539,9 @@ impl Check for C08 {
         let mut rec = Recorder::default();
         if case["unit"].as_str() == Some("paths_tree") {
             return Err("paths_tree cases are re-reported as histories".into());
+        }
+        if case["unit"].as_str() == Some("cli") {
+            return check_cli_history(&history_from_json(case).ok_or("bad history")?, &mut rec);
         }
         check_history(&history_from_json(case).ok_or("bad history")?, &mut rec)
     }
